@@ -199,6 +199,19 @@ func finishCase(t *rapid.T, box orb.Bound, open bool, p ptGen, name string, snap
 		}
 		c.Lines = append(c.Lines, gen.Pts(ls))
 	}
+	// exact change of length scale: multiply everything by 2^k (the exact model scales with it;
+	// a tolerance with an absolute unit would become vacuous or false at the far ends)
+	if rapid.IntRange(0, 3).Draw(t, "rescale") == 0 {
+		k := rapid.IntRange(-60, 60).Draw(t, "k")
+		sc := func(p gen.P) gen.P { return gen.P{gen.F(math.Ldexp(float64(p[0]), k)), gen.F(math.Ldexp(float64(p[1]), k))} }
+		c.Box.Min, c.Box.Max = sc(c.Box.Min), sc(c.Box.Max)
+		for i := range c.Lines {
+			for j := range c.Lines[i] {
+				c.Lines[i][j] = sc(c.Lines[i][j])
+			}
+		}
+		stats.Class("rescaled by 2^k, k in -60..60")
+	}
 	return c, name
 }
 
@@ -223,7 +236,44 @@ func drawFloatCase(t *rapid.T) (Case, string) {
 	var box orb.Bound
 	var p ptGen
 	name := ""
-	switch rapid.IntRange(0, 4).Draw(t, "class") {
+	switch rapid.IntRange(0, 6).Draw(t, "class") {
+	case 5, 6: // a small box far from the origin (map tile in projected metres), paths that cross its
+		// edges at shallow angles: the cut must be as accurate as a well-conditioned evaluation makes it
+		name = "float:small box far from the origin, shallow crossings"
+		off := func(l string) float64 {
+			switch rapid.IntRange(0, 2).Draw(t, l+"k") {
+			case 0:
+				return rapid.Float64Range(-2e7, 2e7).Draw(t, l)
+			case 1:
+				return rapid.Float64Range(1e8, 1e9).Draw(t, l) * float64(2*rapid.IntRange(0, 1).Draw(t, l+"s")-1)
+			}
+			return rapid.Float64Range(-2e6, 2e6).Draw(t, l)
+		}
+		w, h := rapid.Float64Range(1, 100).Draw(t, "w"), rapid.Float64Range(1, 100).Draw(t, "h")
+		box = orb.Bound{Min: orb.Point{off("ox"), off("oy")}}
+		box.Max = orb.Point{box.Min[0] + w, box.Min[1] + h}
+		var prev *orb.Point
+		p = func(t *rapid.T) orb.Point {
+			var q orb.Point
+			switch k := rapid.IntRange(0, 5).Draw(t, "pk"); {
+			case k == 0 || (prev == nil && k >= 3): // anywhere around the box
+				q = orb.Point{rapid.Float64Range(box.Min[0]-w, box.Max[0]+w).Draw(t, "x"), rapid.Float64Range(box.Min[1]-h, box.Max[1]+h).Draw(t, "y")}
+			case k <= 2: // next to an edge line (within 1/1000 of the box size), anywhere along it
+				d := rapid.IntRange(0, 1).Draw(t, "axis")
+				size := [2]float64{w, h}
+				edge := []float64{box.Min[d], box.Max[d]}[rapid.IntRange(0, 1).Draw(t, "side")]
+				q[d] = edge + size[d]*rapid.Float64Range(-1e-3, 1e-3).Draw(t, "perp")
+				q[1-d] = rapid.Float64Range(box.Min[1-d]-size[1-d]/2, box.Max[1-d]+size[1-d]/2).Draw(t, "along")
+			default: // a shallow step from the previous vertex: slope 1e-4 .. 1e-1 against an axis
+				d := rapid.IntRange(0, 1).Draw(t, "axis")
+				m := math.Pow(10, -rapid.Float64Range(1, 4).Draw(t, "slope")) * float64(2*rapid.IntRange(0, 1).Draw(t, "ms")-1)
+				l := []float64{w, h}[d] * rapid.Float64Range(0.2, 3).Draw(t, "len") * float64(2*rapid.IntRange(0, 1).Draw(t, "ls")-1)
+				q[d] = (*prev)[d] + l
+				q[1-d] = (*prev)[1-d] + l*m
+			}
+			prev = &q
+			return q
+		}
 	case 4: // segments through or within rounding of a box corner, off the lattice (findings
 		// clip-line-corner-hang and clip-line-open-nan lived here): box corners k/3, k/10, k*0.7+c;
 		// vertices are corners, or a corner plus a multiple of a small integer direction
@@ -303,8 +353,9 @@ func drawFloatCase(t *rapid.T) (Case, string) {
 
 func assumptions() {
 	stats.Assume("coordinates are finite; boxes have positive width and height")
-	stats.Assume("tolerance: piece end points within 1e-9*(1+max|coordinate|) per axis of the exact run end points; inner vertices bit-equal to input vertices; containment exact; runs/pieces that are a point or shorter than 2*tol are optional on both sides (measure-zero contact, DESIGN 3.2)")
-	stats.Assume("'clipping a piece again returns it unchanged' is demanded bit-for-bit for the closed box; with the open option the second clip must align with the piece within tol")
+	stats.Assume("tolerances have no absolute unit (K = 64, eps = 2^-52): an end point produced by one intersection of segment a->b with an edge: free coordinate within K*eps*(max|a,b| + |b-a|) of the exact crossing; an end point reached through two intersections (corner region, next to a corner, exit of a segment whose entry was computed): the first bound times the slope against the second edge in addition (factor 2); inner vertices bit-equal to input vertices; containment exact")
+	stats.Assume("runs/pieces that are a point or shorter than twice the largest two-intersection bound of the line are optional on both sides (measure-zero contact, DESIGN 3.2)")
+	stats.Assume("'clipping a piece again returns it unchanged' is demanded bit-for-bit for the closed box; with the open option the second clip must give the piece back within 64 ulps per vertex (end points: the two-intersection bound)")
 	stats.Assume("a result split at an input vertex into pieces that meet end-to-start is accepted as the same point set")
 }
 
@@ -316,17 +367,26 @@ func TestPropGridPaths(t *testing.T) {
 		classify(c, "grid")
 		stats.Try(rt, "TestPropGridPaths", c, func() error { return checkCase(c) })
 	})
+	noteWorst("grid")
 }
 
 func TestPropFloatPaths(t *testing.T) {
 	assumptions()
-	stats.Assume("float paths: a segment within 1e-5 rad of an axis direction is made exactly axis-parallel (a line almost parallel to the edge it crosses near a corner makes the second intersection ill-conditioned beyond the stated tolerance)")
+	stats.Assume("float paths: a segment within 1e-5 rad of an axis direction is made exactly axis-parallel (for a line almost parallel to an edge the two-intersection bound, which also decides what counts as point-like, grows with the slope and would make the case vacuous)")
 	stats.Check(t, 120000, 2400000, func(rt *rapid.T) {
 		c, name := drawFloatCase(rt)
 		stats.Class(name)
 		classify(c, "float")
 		stats.Try(rt, "TestPropFloatPaths", c, func() error { return checkCase(c) })
 	})
+	noteWorst("float")
+}
+
+// noteWorst records the worst observed |error|/bound of computed end points so far (per shard).
+func noteWorst(after string) {
+	sh, _ := stats.Shard()
+	stats.Note(fmt.Sprintf("worst_error_over_bound_after_%s_shard%d", after, sh),
+		fmt.Sprintf("single-intersection end points %.3g, two-intersection end points %.3g", worstRatio[0], worstRatio[1]))
 }
 
 // ---------------------------------------------------------------- exhaustive lattice
@@ -513,7 +573,7 @@ func TestSelfModel(t *testing.T) {
 		box := c.Box.Bound()
 		for _, ls := range c.lines() {
 			if !exact.FastEligible(box, ls) {
-				rt.Fatalf("grid case not eligible for the int64 back end: %v", gen.JSON(c))
+				continue // a lattice case rescaled by 2^k
 			}
 			a := exact.ClipLineFast(box, ls, c.Open)
 			b := exact.ClipLineRat(box, ls, c.Open)
